@@ -262,3 +262,29 @@ PROPS['C04'] = {
 for _p in ('C01', 'C02', 'C05', 'C06', 'C07', 'C08', 'C09', 'C10', 'C12', 'C13', 'C14', 'C15', 'C16', 'C17', 'C18', 'C19', 'C20'):
     PROPS[_p].setdefault('trusted', [])
     PROPS[_p]['trusted'] = PROPS[_p]['trusted'] + _BX_TRUST
+
+LEVEL_TEXT = {
+ 'C01': "Proof: Verus discharges every index/slice/arithmetic/unwrap/unreachable/termination obligation of the decoding entry points (whole message, header, type, raw attribute, 14 typed decoders, iterator, validate_integrity) for ALL byte strings, with precondition `true` on the bytes (representation invariant wf_message for methods on an accepted message); Kani covers the remaining 5 typed decoders completely. Formatting, policing and tracing-subscriber clauses are outside both verifiers and are run by the bounded stand-in (catch_unwind + watchdog), listed as bounded. One known finding (D8) is reported as KNOWN-FINDING.",
+ 'C02': "Proof: `Message::from_bytes` is verified `Ok <==> wf_message(bytes)` for buffers of every length against a recursive spec predicate written from the statement (not from the code); header fields, the exposed attribute stream (iterator) and the header/declared-length error cases are postconditions. Lookups through iterator adaptors and the exact variant of interior rejections are decided by the bounded differential against an independent reference decoder.",
+ 'C03': "Exploration: MessageBuilder (dyn AttributeWrite + SmallVec + iterator sums) is outside Verus and exhausts Kani; the builder side is a bounded stand-in (random builder programs vs an independent serialiser with independent HMAC/CRC). The parser side it round-trips through is proved under C02/C10, and the per-attribute writers under C12.",
+ 'C04': "Proof: `Message::validate_integrity` is verified for every accepted message and every credential against the RFC 8489 s14.5/14.6 specification (which exposed attribute is checked, HMAC input = prefix with the length field set to the end of that attribute, truncated SHA-256 lengths, MissingAttribute) with HMAC/MD5 as uninterpreted functions. That the hmac/sha crates compute those functions, the key derivation and tamper-evidence on concrete messages are bounded (independent HMAC-SHA1/SHA256/MD5 implementation).",
+ 'C05': "Exploration: whole-view postconditions of send / handle_stun / take_outstanding_request / request_transaction / cancel / StunRequestState::poll and the exactly-once theorem over them are proved by Verus; the one link that is not (StunAgent::poll's `values_mut` loop, which turns a per-request verdict into removal) is decided by the bounded stand-in stepping the real agent against an abstract agent - so the property as a whole is claimed at exploration.",
+ 'C06': "Exploration: the per-request schedule (StunRequestState::new defaults and poll for schedules of any length and all instants) is proved by Verus; configure_timeout (iterator map/fold over Duration) and the agent-level minimum over transactions are bounded (exhaustive configuration grid driven by on-time polls, random histories with early/exact/late polls at microsecond resolution).",
+ 'C07': "Proof: handle_stun's postcondition (delivered => outstanding and, if the request was sealed, remote credentials set and validate_integrity Ok; otherwise Drop with the whole abstract state unchanged) and request_had_credentials <=> builder has an integrity attribute are verified by Verus for all inputs; validate_integrity itself is C04. End-to-end with real HMACs is bounded.",
+ 'C08': "Exploration: decode side proved - 14 typed decoders in Verus for value strings of ANY length (UTF-8 via vstd::utf8), 5 in Kani (complete); encode side proved for to_raw/length of the string types and the in-place writers of 12 types (C12). Still bounded only: UNKNOWN-ATTRIBUTES decoder (chunks_exact), writers of ERROR-CODE / UNKNOWN-ATTRIBUTES / PASSWORD-ALGORITHMS, constructors - hence exploration.",
+ 'C09': "Proof: an accepted buffer with a FINGERPRINT at offset o satisfies value == crc32(bytes[..o] with length field o+8-20) ^ 0x5354554e and o+8 == len (clause fp_ok of wf_message, verified for all buffers); XOR constant by Kani for all 2^32 values. That Fingerprint::compute is CRC-32/ISO-HDLC, the builder side and the corruption sweeps are bounded.",
+ 'C10': "Proof: the iterator is verified to yield exactly the exposure rule of the statement on every accepted message; the 'hence' clauses (non-sealing exposed attributes lie before the end of the first integrity attribute; prefix stability) are spec-level lemmas; validate_integrity checks an exposed attribute over that prefix (C04). Lookups through `find`/`any` are bounded.",
+ 'C11': "Exploration: the builder's guard logic is outside both verifiers (SmallVec, dyn); exhaustive operation sequences up to length 5/6 over the sealing alphabet plus random programs are run on the real builder against the ordering rules of the statement.",
+ 'C12': "Exploration: for raw attributes and 12 typed attributes the in-place writer, the size guard of write_into and to_bytes are proved equal to the RFC TLV layout for values of any length (Verus), 4 more types by Kani; ERROR-CODE/UNKNOWN-ATTRIBUTES/PASSWORD-ALGORITHMS writers and every MessageBuilder path are bounded - hence exploration.",
+ 'C13': "Proof: complete Kani harnesses over all IPv4/IPv6 addresses x ports x transaction ids (fixed trip-count loops unwound with assertions): round trip, RFC wire bytes, other transaction id.",
+ 'C14': "Proof: push_data/pull_data/take verified against the abstract pull step; the stream-level statement (any frame list, any chunking, any interleaving) is theorem_history, an induction over those contracts (unique decoding of the length-prefixed stream).",
+ 'C15': "Proof: whole-set postconditions on validated_peers for every operation in Verus and theorem_peers (monotone; validated exactly by an Incoming/Deliver event from that address). StunAgent::poll never names the set (bounded confirmation).",
+ 'C16': "Exploration: comprehension_required is proved for all 65536 types (Kani); check_attribute_types / unknown_attributes / bad_request (iterator adaptors + MessageBuilder) are bounded against an RFC 8489 s6.3.1 oracle.",
+ 'C17': "Proof: the [C17.short]/[C17.exact] clauses of from_bytes, the header decoder's contract and lemma_prefix_truncated give the statement for every well-formed message and every cut point, no bound.",
+ 'C18': "Exploration: bytes captured once (new), SendData carries them with the same 5-tuple (request poll), send returns the unmodified serialisation, peer_address - all Verus; forwarding through StunAgent::poll is bounded.",
+ 'C19': "Proof: complete Kani harnesses over all 4x4096 (class, method) pairs, all 65536 field values and all u128 ids; Verus for Message::{get_type,transaction_id} and the header decoder. Header writer placement (builder) and generated ids are bounded.",
+ 'C20': "Exploration: every extracted agent function is verified in a closed world against contracts over (state, arguments) only (an ambient source would be an unsupported call and is reported for this property); shift invariance of the request poll contract; whole-agent shifted replay in another instance / thread is bounded.",
+}
+for _p, _t in LEVEL_TEXT.items():
+    PROPS[_p]['level_text'] = _t
+    PROPS[_p]['explanation'] = _t
